@@ -244,6 +244,17 @@ func runStartReq(rep *vh.Report, env vh.Env, worlds []*world, pc *perClass, i in
 		g.Target += "?" + pick(r, queryParams)
 		g.Shape += " +return-url-looking-query"
 	}
+	if g.Class == "plain" && r.Intn(4) == 0 {
+		// paths an "explicit sign-in" feature would plausibly live at, with a return-URL-looking parameter:
+		// on the pinned tree they are ordinary paths of the upstream (the flow records the request target
+		// and returns to it); an endpoint that starts a flow towards the PARAMETER's value shows here
+		// (added after seeded change C06l - /oauth2/start?rd=<path> accepting /\host - was missed)
+		g.Target = pick(r, []string{"/oauth2/start", "/oauth2/sign_in", "/oauth2/login", "/oauth2/signin", "/oauth2/authorize", "/oauth2/redirect", "/oauth2/start/", "/sign_in", "/login"}) +
+			"?" + pick(r, []string{"rd", "redirect", "redirect_uri", "next", "return_to", "url", "continue"}) + "=" +
+			pick(r, []string{"/%5Cevil-query.example/x", "%2F%5Cevil-query.example", "//evil-query.example/", "%2F%2Fevil-query.example", "/%09/evil-query.example", "https:evil-query.example", "https://evil-query.example/x", "/from-query/x", "%5C%5Cevil-query.example", "/.//evil-query.example"})
+		g.Shape = "sign-in-looking-path +return-url-looking-query"
+		rep.Count("c_sign_in_looking_paths", 1)
+	}
 	kc := &reqCase{Index: i, World: w.idx, Scheme: w.scheme, Host: u.host, Method: method, Class: g.Class, Shape: g.Shape, Target: clip(g.Target)}
 	rep.Eval()
 	rep.Count("c_method_"+method, 1)
